@@ -549,3 +549,29 @@ def correspond(check, name, model_exe, impl_exe, lines, describe=None, bucket=No
         l, a, b = min(dis, key=lambda d: len(d[0]))
         check.broken.append("correspondence %s: %d disagreement(s); smallest: case %r model=%r impl=%r" % (name, len(dis), l[:200], a[:200], b[:200]))
     return dis
+
+
+def run_lines_resilient(exe, lines, timeout=900, env=None, max_deaths=5):
+    """Like run_lines, but when the harness dies or hangs in the middle it is restarted after
+    the case that killed it.  Returns (outputs, deaths): outputs[i] is None for a case that
+    killed the harness (or was not reached after max_deaths); deaths = [(index, rc, stderr tail)]."""
+    outs = [None] * len(lines)
+    deaths = []
+    start = 0
+    while start < len(lines) and len(deaths) <= max_deaths:
+        try:
+            rc, o, err = run_lines(exe, lines[start:], timeout=timeout, env=env)
+        except subprocess.TimeoutExpired as e:
+            o = (e.stdout or b"").decode("utf-8", "replace").split("\n")
+            if o and o[-1] == "":
+                o.pop()
+            elif o:
+                o.pop()          # incomplete last line
+            rc, err = "timeout", ""
+        n = min(len(o), len(lines) - start)
+        outs[start:start + n] = o[:n]
+        if start + n >= len(lines):
+            break
+        deaths.append((start + n, rc, err[-300:]))
+        start = start + n + 1
+    return outs, deaths
